@@ -14,7 +14,7 @@ EXPLANATION = ('bounded model checking of the real Data mutation API: every sequ
                'checked, and the values of every attribute are proved (z3) equal to the expected symbolic values')
 
 OPS = ['add component', 'add component (wrong shape)', 'add component (duplicate label)', 'add derived', 'add derived of derived',
-       'remove component', 'remove foreign component', 'reorder (reverse main)', 'reorder (invalid)', 'update_id', 'update_components',
+       'remove component', 'remove foreign component', 'reorder (reverse main)', 'reorder (reverse derived)', 'reorder (invalid)', 'update_id', 'update_components',
        'update_components (wrong shape)', 'update_values_from_data (same shape)', 'update_values_from_data (new shape)',
        'set coords', 'unset coords', 'set label']
 
@@ -236,6 +236,16 @@ def step(s, op, shape):
             new[i] = comps[j]
         d.reorder_components(new)
         env.true([id(c) for c in d.components] == [id(c) for c in new], 'components are in the requested order')
+    elif name == 'reorder (reverse derived)':
+        comps = list(d.components)
+        idx = [i for i, c in enumerate(comps) if c in d.derived_components]
+        if len(idx) < 2:
+            env.assume(False)
+        new = list(comps)
+        for i, j in zip(idx, reversed(idx)):
+            new[i] = comps[j]
+        d.reorder_components(new)
+        env.true([id(c) for c in d.components] == [id(c) for c in new], 'components are in the requested order')
     elif name == 'reorder (invalid)':
         comps = list(d.components)
         try:
@@ -347,7 +357,7 @@ def harnesses(tier):
     shapes = [(2, 2)] if tier == 'quick' else [(3,), (2, 2)]
     for shape in shapes:
         for f in range(len(OPS)):
-            if OPS[f] == 'add derived of derived':
+            if OPS[f] in ('add derived of derived', 'reorder (reverse derived)'):
                 continue
             for inc in (1, 0):
                 if inc == 0 and tier == 'quick' and f % 2:
